@@ -13,7 +13,7 @@ LEVEL = "exploration"
 RULE = (
     "v1: field values from their domains (VERSION supported set + any 100-199, SECURITY, ENCODING/CHARSET pairs, optional "
     "COMPRESSION, UIDs) x layout (per-gap separator CRLF/LF/CR/'' uniform or mixed, 0-3 blanks/tabs after each colon, 0-6 "
-    "leading blank lines, header/body gap '', ' ', LF, CRLF, CR, several blank lines); v2: XML declaration with ' or \" quotes, "
+    "leading blank lines, header/body gap '', ' ', LF, CRLF, CR, several blank lines); v2: XML declaration with ' or \" quotes (chosen per attribute), "
     "gaps '', LF, CRLF, blanks between declarations and body, leading blank lines; body: arbitrary text starting with '<' and "
     "ending with '>' over characters encodable in the declared charset (0x80-0xFF favoured).  Oracle: inverse - header fields "
     "and exact body text are the generated ones.  The separator x gap x charset product is enumerated.  non-trivial = layout "
@@ -30,7 +30,16 @@ V1_FIELDS = ["OFXHEADER", "DATA", "VERSION", "SECURITY", "ENCODING", "CHARSET", 
 CODECS = {"ISO-8859-1": "latin_1", "1252": "cp1252", "NONE": "utf_8"}
 SEPS = ["\r\n", "\n", "\r", ""]
 GAPS = ["", " ", "\n", "\r\n", "\r", "\r\n\r\n", "\n\n\n"]
-UID = st.text("ABCDEFGHIJKLMNOPQRSTUVWXYZabcdefghijklmnopqrstuvwxyz0123456789_-", min_size=1, max_size=36)
+_HEX = st.text("0123456789abcdefABCDEF", min_size=32, max_size=32)
+UID = st.one_of(
+    st.text("ABCDEFGHIJKLMNOPQRSTUVWXYZabcdefghijklmnopqrstuvwxyz0123456789_-", min_size=1, max_size=36),
+    st.text("ABCDEFGHIJKLMNOPQRSTUVWXYZabcdefghijklmnopqrstuvwxyz0123456789_-", min_size=1, max_size=36),
+    # UUID-shaped in the spellings clients produce: upper / mixed case with dashes, 32 hex digits without
+    _HEX.map(lambda h: f"{h[:8]}-{h[8:12]}-{h[12:16]}-{h[16:20]}-{h[20:]}"),
+    _HEX.map(lambda h: f"{h[:8]}-{h[8:12]}-{h[12:16]}-{h[16:20]}-{h[20:]}".upper()),
+    _HEX,
+)
+ENTITY_BITS = ["&#60;", "&#38;", "&#x3C;", "&#62;", "&amp;", "&lt;", "&#233;", "&#0;", "&nbsp;", "&", ";", "#"]
 
 ALL_PAIRS = [(e, c) for e in ("USASCII", "UNICODE", "UTF-8") for c in ("ISO-8859-1", "1252", "NONE")]
 CP1252_CHARS = "".join(bytes([b]).decode("cp1252") for b in range(0x80, 0x100) if b not in (0x81, 0x8D, 0x8F, 0x90, 0x9D))
@@ -47,8 +56,10 @@ def body_st(charset, ascii_only=False):
     else:
         alpha = st.one_of(st.characters(min_codepoint=0x20, max_codepoint=0x2FFF, exclude_categories=("Cs", "Cn")), st.sampled_from("\r\n\t€漢💩"))
     inner = st.one_of(
-        st.sampled_from(["OFX><A>x</A></OFX", "OFX>\r\n<A>1\r\n</OFX", "A", "a>b<c"]),
+        st.sampled_from(["OFX><A>x</A></OFX", "OFX>\r\n<A>1\r\n</OFX", "A", "a>b<c", "OFX><A>AT&#38;T &#60;b&#62;</A></OFX"]),
         st.text(alpha, min_size=0, max_size=30),
+        # entity and character-reference spellings are body text like any other: the header parser hands them over verbatim
+        st.lists(st.one_of(st.sampled_from(ENTITY_BITS), st.text(alpha, min_size=0, max_size=4)), min_size=1, max_size=8).map("".join),
     )
     return inner.map(lambda s: "<" + s + ">")
 
@@ -93,6 +104,8 @@ def v2_case(draw):
         "NEWFILEUID": draw(st.one_of(st.just("NONE"), UID)),
     }
     q = draw(st.sampled_from(['"', "'"]))
+    # each attribute of the XML declaration chooses its own quote character
+    qs = [q, q, q] if draw(st.booleans()) else [draw(st.sampled_from(['"', "'"])) for _ in range(3)]
     g1 = draw(st.sampled_from(["", "\n", "\r\n", " ", "\r\n\r\n", "\r"]))
     g2 = draw(st.sampled_from(["", "\n", "\r\n", " ", "\r\n\r\n", "\r"]))
     lead = draw(st.sampled_from(["", "", "\n", "\r\n", "\n\n\n", "\n" * 6]))
@@ -100,7 +113,7 @@ def v2_case(draw):
     body = draw(body_st("NONE"))
     trail = draw(st.sampled_from(["", "", "", "\n", "\r\n"]))
     enc_name = draw(st.sampled_from(["UTF-8", "utf-8"]))
-    return {"kind": "v2", "vals": vals, "q": q, "g1": g1, "g2": g2, "lead": lead, "ws": inner_ws, "body": body, "trail": trail, "enc": enc_name}
+    return {"kind": "v2", "vals": vals, "q": q, "g1": g1, "g2": g2, "lead": lead, "ws": inner_ws, "body": body, "trail": trail, "enc": enc_name, "qs": qs}
 
 
 def build(case):
@@ -119,7 +132,8 @@ def build(case):
         return head.encode("ascii") + (case["body"] + case["trail"]).encode(codec), codec
     q = case["q"]
     vals = case["vals"]
-    xml = f"<?xml version={q}1.0{q} encoding={q}{case['enc']}{q} standalone={q}no{q}?>"
+    q1, q2, q3 = case.get("qs", [q, q, q])
+    xml = f"<?xml version={q1}1.0{q1} encoding={q2}{case['enc']}{q2} standalone={q3}no{q3}?>"
     ws = case["ws"]
     ofx = "<?OFX" + ws + ws.join(f'{k}="{vals[k]}"' for k in ["OFXHEADER", "VERSION", "SECURITY", "OLDFILEUID", "NEWFILEUID"]) + "?>"
     text = case["lead"] + xml + case["g1"] + ofx + case["g2"] + case["body"] + case["trail"]
@@ -214,6 +228,14 @@ def _labels(case):
         labs.append("lenient: trailing whitespace")
     if any(ord(c) > 0x7F for c in case["body"]):
         labs.append("non-ascii body")
+    if "&#" in case["body"]:
+        labs.append("character reference in body")
+    if len(set(case.get("qs", ["x"]))) > 1:
+        labs.append("mixed quote characters in XML declaration")
+    import re as _re
+
+    if any(_re.fullmatch(r"[0-9a-fA-F]{32}|[0-9a-fA-F-]{36}", case["vals"][k]) for k in ("OLDFILEUID", "NEWFILEUID")):
+        labs.append("UUID-shaped file uid")
     return labs
 
 
